@@ -55,6 +55,22 @@ def req_kind(ref, ast):
 
 
 def packet_path(env, n_reqs, key, for_write):
+    cache = getattr(env, "_svc_cache", None)
+    if cache is None or cache[0] is not env.ctl.exec_log or cache[1] != len(env.ctl.exec_log):
+        by = {}
+        for e in env.ctl.exec_log:
+            by.setdefault(e.get("key"), []).append(e["svc"])
+        multi = any(r.get("kind") == "multi_service" for r in env.world.oplog)
+        cls = {k: ("fragmented" if any(x.endswith("_frag") for x in v) else "rmw" if "rmw" in v else None)
+               for k, v in by.items()}
+        cache = env._svc_cache = (env.ctl.exec_log, len(env.ctl.exec_log), cls, multi)
+    c = cache[2].get(key)
+    if c == "fragmented" or (c == "rmw" and for_write):
+        return c
+    return "multi" if cache[3] else "single"
+
+
+def _packet_path_slow(env, n_reqs, key, for_write):
     svcs = [e["svc"] for e in env.ctl.exec_log if e.get("key") == key]
     if any(s.endswith("_frag") for s in svcs):
         return "fragmented"
@@ -84,10 +100,14 @@ def check_denotation(env, ref, reqs, for_write, hits):
             key, off, tname, bit = r["addr"]
             seen.add((key, off, tname))
     n = 0
+    done = set()
     for q in reqs:
         if q.get("invalid") or q.get("ast") is None or q.get("skip_denote"):
             continue
         n += 1
+        if id(q["ast"]) in done:
+            continue
+        done.add(id(q["ast"]))
         key, off, tname, special = expected_wire_addr(ref, q["ast"], for_write)
         if (key, off, tname) in seen:
             continue
@@ -112,10 +132,15 @@ def check_tiling(env, hits):
         direction = "read" if svc == "read_frag" else "write"
         # split into transfers at offset 0
         transfers = []
+        got = 0
         for e in es:
-            if e["offset"] == 0 or not transfers:
+            # a new transfer starts at offset 0 once the running one has received something (an empty
+            # fragment at offset 0 is followed by a repeat of offset 0 within the same transfer)
+            if not transfers or (e["offset"] == 0 and got > 0):
                 transfers.append([])
+                got = 0
             transfers[-1].append(e)
+            got += e["len"]
         for tr in transfers:
             n += 1
             pos = 0
@@ -191,6 +216,7 @@ def check_read(env, ref, op, outcome, res, hits, ctx):
             return ev
         results = res
     cs = ctx["cs"]
+    memo = {}       # identical request objects (huge calls repeat one request) are interpreted once
     for q, t in zip(reqs, results):
         truthy = bool(t)
         if truthy != (t.value is not None and t.error is None):
@@ -202,9 +228,10 @@ def check_read(env, ref, op, outcome, res, hits, ctx):
                          rw="r")
             continue
         ast = q["ast"]
-        name, val, tstr = ref.expect_read(ast, env.ctl.mem)
-        kind = req_kind(ref, ast)
-        key = ref.resolve(ast)["key"]
+        memo_k = id(ast)
+        if memo_k not in memo:
+            memo[memo_k] = (ref.expect_read(ast, env.ctl.mem), req_kind(ref, ast), ref.resolve(ast)["key"])
+        (name, val, tstr), kind, key = memo[memo_k]
         path = packet_path(env, n, key, False)
         ev["C01"] += 1
         what = None
@@ -279,14 +306,18 @@ def check_write(env, ref, op, before, outcome, res, hits, ctx):
                 hits.hit("C03", "result.failure", f"write {q['text']!r} ({q.get('invalid') or 'injected status'}) gave "
                          f"{t!r}", cause=q.get("invalid") or "injected", what="truthy" if bool(t) else "empty-error",
                          rw="w")
-            if q.get("injected") and q.get("ast") is not None:
+            if q.get("injected") and q.get("ast") is not None and t is not None and bool(t):
+                pass        # success was reported for a write the controller refused: judge it like any reported success
+            elif q.get("injected") and q.get("ast") is not None:
                 # refused by the controller part-way (e.g. one fragment): its own range may be partly written
                 try:
                     e0 = ref.expect_write(q["ast"], v)
                     allowed.setdefault(e0["key"], []).append(e0["range"])
                 except Exception:  # noqa
                     pass
-            continue
+                continue
+            else:
+                continue
         if t is None:
             continue
         ast = q["ast"]
@@ -326,11 +357,15 @@ def check_write(env, ref, op, before, outcome, res, hits, ctx):
                          f"addressed range {ranges[:3]}", path="n/a", kind="n/a", diff="outside-range")
                 break
     # inside: the constraints hold; bits outside the mask of masked constraints unchanged
-    for q, v, exp, path in expectations:
+    for ei, (q, v, exp, path) in enumerate(expectations):
         key = exp["key"]
         a = after[key]
         b = before[key]
         bad = None
+        if exp["kind"] in ("bit", "boolarr_bit", "bitmember") and any(
+                e2["key"] == key and e2["range"] == exp["range"] and e2["kind"] == exp["kind"]
+                and e2["cons"][0][2] == exp["cons"][0][2] for q2, v2, e2, p2 in expectations[ei + 1:]):
+            continue        # a later request of the same call writes the same bit: that one decides
         full_masks = bytearray(exp["range"][1] - exp["range"][0])
         lo0 = exp["range"][0]
         for off, data, mask in exp["cons"]:
@@ -486,7 +521,12 @@ def expected_type_def(ref, tname):
          "members": {}}
     if td.get("string_cap") is not None:
         d["string"] = td["string_cap"]
+    unk = 0
     for m in td["members"]:
+        mname = m["name"]
+        if not mname:               # unnamed internal members are listed as __unknown<n> (and hidden)
+            mname = f"__unknown{unk}"
+            unk += 1
         md = {"offset": m["offset"],
               "tag_type": "atomic" if m["type"] in ATOMIC_BY_NAME else "struct",
               "data_type_name": m["type"]}
@@ -494,7 +534,7 @@ def expected_type_def(ref, tname):
             md["bit"] = m["bit"]
         else:
             md["array"] = m.get("array") or 0
-        d["members"][m["name"]] = md
+        d["members"][mname] = md
     return d
 
 
@@ -694,6 +734,7 @@ def run_once(sc):
                 # read-back of what was reported written
                 if expectations and op.get("readback", True):
                     session.begin_op(env, op["id"] + "/rb")
+                    ctl.inject = []         # the controller refuses nothing during the read-back
                     rb = {"reqs": [q for q, v, e, p in expectations]}
                     texts = [q["text"] for q in rb["reqs"]]
                     outcome2, res2 = harness.call(sim, drv.read, *texts)
@@ -708,6 +749,9 @@ def run_once(sc):
                     evals["C02"] += 1
             else:
                 raise ValueError(kind)
+            for h in hits.items:
+                if h["oracle"] == "seq.adjacent" and h["op"] == op["id"] and "call_size" not in h["features"]:
+                    h["features"]["call_size"] = ">=65000 requests" if len(op.get("reqs", ())) >= 65000 else "<65000 requests"
             # monitors that every op feeds
             if kind in ("open", "read", "write", "get_tag_list", "close"):
                 evals["C11"] += 1
@@ -948,7 +992,9 @@ def gen_rw_op(r, ref, oid, rw, prop, micro, with_prog, tier):
             for o in taken:
                 if overlaps((me[0], me[1]), (o[0], o[1])):
                     both_bits = me[2] in ("bit", "boolarr_bit", "bitmember") and o[2] == me[2] and me[3] != o[3]
-                    if not both_bits:
+                    # the same bit written twice with any values: the later request decides (sequential semantics)
+                    same_bit = me[2] in ("bit", "boolarr_bit") and o[2] == me[2] and me[3] == o[3] and r.random() < 0.5
+                    if not (both_bits or same_bit):
                         clash = True
                         break
             if clash:
@@ -964,7 +1010,7 @@ def gen_rw_op(r, ref, oid, rw, prop, micro, with_prog, tier):
     if for_write:
         op["values"] = vals
         op["flat"] = len(reqs) == 1 and r.random() < 0.5
-    if prop == "C03" and r.random() < 0.35:
+    if (prop == "C03" and r.random() < 0.35) or (prop == "C02" and for_write and r.random() < 0.15):
         # the controller itself refuses one of the services (any non-zero general status)
         valid_idx = [i for i, q in enumerate(reqs) if not q.get("invalid")]
         if valid_idx:
@@ -990,8 +1036,10 @@ def directed(tier, prop):
     out = []
     if prop == "C04":
         out += directed_sizes(tier)
+        out += directed_struct_sizes(tier)
     if prop == "C03":
         out += directed_shapes()
+        out += directed_sizes_mixed()
     if prop == "C17":
         out += directed_wrap(tier)
     return out
@@ -1052,6 +1100,62 @@ def directed_sizes(tier):
     return out
 
 
+def directed_sizes_mixed():
+    """C03: a request whose size sits around the connection size, next to a small valid and a planted-invalid
+    request - whatever the packing does with the big one, the others keep their outcome"""
+    out = []
+    for cs, large in ((500, False), (4000, True)):
+        for size in range(cs - 40, cs + 12):
+            tags = [{"name": "buf", "type": "SINT", "dims": [size]}, {"name": "small", "type": "DINT", "dims": []}]
+            world = base_world(tags, large=large)
+            big = {"scope": None, "tag": "buf", "idx": None, "path": [], "bit": None, "count": size}
+            small = {"scope": None, "tag": "small", "idx": None, "path": [], "bit": None, "count": None}
+            rq = [{"text": render(big)[0], "ast": big, "invalid": None}, {"text": "small", "ast": small, "invalid": None},
+                  {"text": "NoSuchTag", "ast": None, "invalid": "unknown_tag"}]
+            ops = [{"id": "o0", "kind": "open"}, {"id": "o1", "kind": "read", "reqs": rq},
+                   {"id": "o2", "kind": "read", "reqs": [rq[1], rq[0], rq[2]]},
+                   {"id": "o3", "kind": "write", "reqs": [dict(x) for x in rq],
+                    "values": [[(i * 3) % 256 - 128 for i in range(size)], 5, 1], "readback": False},
+                   {"id": "o4", "kind": "close"}]
+            out.append({"engine": "logix", "seed": 2000 + size, "prop": "C03", "world": world,
+                        "net": {"chunk": "whole", "send": "all", "latency": "zero"},
+                        "driver": {"cls": "LogixDriver", "path": "10.0.0.1", "init_tags": True, "init_program_tags": False,
+                                   "log": "off", "seq_advance": 0}, "ops": ops, "faults": []})
+    return out
+
+
+def directed_struct_sizes(tier):
+    """C04: structure tags carry a 4-byte type field in replies and requests: arrays of a 4-byte UDT around cs"""
+    out = []
+    ud = {"UD4": {"name": "UD4", "template_id": 0x234, "handle": 0x1357, "size": 4, "align": 4, "string_cap": None,
+                  "predefined": False, "members": [{"name": "a", "type": "DINT", "array": 0, "offset": 0, "bit": None,
+                                                    "hidden": False}]}}
+    for cs, large in ((500, False), (4000, True)):
+        for n in range((cs - 64) // 4, (cs + 64) // 4 + 1):
+            for name in ("S", "StructTag_17"):
+                tags = [{"name": name, "type": "UD4", "dims": [n]}, {"name": "small", "type": "DINT", "dims": []}]
+                world = base_world(tags, types=copy.deepcopy(ud), large=large)
+                ast = {"scope": None, "tag": name, "idx": None, "path": [], "bit": None, "count": n}
+                small = {"scope": None, "tag": "small", "idx": None, "path": [], "bit": None, "count": None}
+                vals = [{"a": (i * 11) % 1000} for i in range(n)]
+                ops = [{"id": "o0", "kind": "open"},
+                       {"id": "o1", "kind": "read", "reqs": [{"text": render(ast)[0], "ast": ast, "invalid": None}]},
+                       {"id": "o2", "kind": "read", "reqs": [{"text": render(ast)[0], "ast": ast, "invalid": None},
+                                                              {"text": "small", "ast": small, "invalid": None}]},
+                       {"id": "o3", "kind": "write", "reqs": [{"text": render(ast)[0], "ast": ast, "invalid": None}],
+                        "values": [vals], "readback": False},
+                       {"id": "o4", "kind": "write", "reqs": [{"text": render(ast)[0], "ast": ast, "invalid": None},
+                                                               {"text": "small", "ast": small, "invalid": None}],
+                        "values": [vals, 3], "readback": False},
+                       {"id": "o5", "kind": "close"}]
+                out.append({"engine": "logix", "seed": 3000 + n, "prop": "C04", "world": world,
+                            "net": {"chunk": "whole", "send": "all", "latency": "zero"},
+                            "driver": {"cls": "LogixDriver", "path": "10.0.0.1", "init_tags": True,
+                                       "init_program_tags": False, "log": "off", "seq_advance": 0},
+                            "ops": ops, "faults": []})
+    return out
+
+
 def directed_shapes():
     tags = [{"name": "a", "type": "DINT", "dims": []}, {"name": "b", "type": "DINT", "dims": [4]}]
     out = []
@@ -1068,9 +1172,29 @@ def directed_shapes():
     return out
 
 
+def counter_distance(n_small):
+    """one read call of a fragmented tag followed by n_small small tags: the request packets take their
+    sequence counts when they are constructed, the multi-service packets afterwards, and the fragmented
+    request - constructed first - is sent last.  With n_small + (number of multi packets) == 65535 the last
+    multi-service packet and the fragmented request carry the same count although adjacent on the wire."""
+    tags = [{"name": "big", "type": "DINT", "dims": [2000]}, {"name": "w", "type": "DINT", "dims": []}]
+    big = {"scope": None, "tag": "big", "idx": None, "path": [], "bit": None, "count": 2000}
+    w = {"scope": None, "tag": "w", "idx": None, "path": [], "bit": None, "count": None}
+    world = base_world(tags, large=True)
+    reqs = [{"text": render(big)[0], "ast": big, "invalid": None}] + [{"text": "w", "ast": w, "invalid": None}] * n_small
+    return {"engine": "logix", "seed": 65535 + n_small, "prop": "C17", "world": world,
+            "net": {"chunk": "whole", "send": "all", "latency": "zero"},
+            "driver": {"cls": "LogixDriver", "path": "10.0.0.1", "init_tags": True, "init_program_tags": False,
+                       "log": "off", "seq_advance": 0},
+            "ops": [{"id": "o0", "kind": "open"}, {"id": "o1", "kind": "read", "reqs": reqs}, {"id": "o2", "kind": "close"}],
+            "faults": []}
+
+
 def directed_wrap(tier):
     """the 16-bit counter wraps inside every kind of multi-packet operation"""
     out = []
+    # 65272 + 263 multi-service packets = 65535 draws between the fragmented request and the packet sent before it
+    out += [counter_distance(n) for n in ((65271, 65272, 65273) if tier == "thorough" else (65272,))]
     tags = [{"name": "big", "type": "DINT", "dims": [400]}, {"name": "w", "type": "DINT", "dims": []},
             {"name": "x", "type": "INT", "dims": [6]}]
     big = {"scope": None, "tag": "big", "idx": None, "path": [], "bit": None, "count": 400}
